@@ -311,6 +311,10 @@ func NewGen(seed int64, prop string, run int, thorough bool) *Gen {
 
 	g.cfg = cfg
 	g.x = NewExec(cfg)
+	if g.multi && !cfg.MultiToken {
+		g.multi = false
+		g.x.stats.inc("multi_token_unavailable")
+	}
 	for f := range g.faults {
 		g.x.stats.inc("enabled_" + f)
 	}
